@@ -108,6 +108,8 @@ type cluster struct {
 	onMetadata func(br *mbroker, c *simConn, corr int32, r *sarama.MetadataRequest, m *sarama.MetadataResponse)
 	onGarbage func(c *simConn, h reqHeader, kind string)
 	onRequest func(c *simConn, h reqHeader, body interface{}, fault *cf.Fault)
+	retryPending map[string]bool // partition -> a retriable error was answered and nothing has been appended since
+	onDeliver func(c *simConn, corr int32)
 	onAppend  func(p *mpart, b *mbatch, pr *produceReq)
 	onProduce func(br *mbroker, c *simConn, ver int16, frameLen int, pr *produceReq, sets map[string][]wbatch)
 	extra     func(br *mbroker, c *simConn, h reqHeader, body interface{}, fault *cf.Fault) (resp []byte, handled bool, noResponse bool)
@@ -118,7 +120,7 @@ type cluster struct {
 func brokerAddr(id int32) string { return fmt.Sprintf("b%d:9092", id) }
 
 func newCluster(k *kernel, c *cf.Case) *cluster {
-	cl := &cluster{k: k, brokers: map[int32]*mbroker{}, topics: map[string]*mtopic{}, pidNext: 7000}
+	cl := &cluster{k: k, brokers: map[int32]*mbroker{}, topics: map[string]*mtopic{}, pidNext: 7000, retryPending: map[string]bool{}}
 	for _, id := range c.Cluster.Brokers {
 		cl.brokers[id] = &mbroker{id: id, addr: brokerAddr(id), up: true, dirtyUs: -1}
 		cl.order = append(cl.order, id)
@@ -481,6 +483,9 @@ func (cl *cluster) respond(c *simConn, resp []byte, extraDelay time.Duration) {
 		}
 		c.mu.Unlock()
 		c.deliver(resp)
+		if cl.onDeliver != nil && len(resp) >= 8 {
+			cl.onDeliver(c, int32(uint32(resp[4])<<24|uint32(resp[5])<<16|uint32(resp[6])<<8|uint32(resp[7])))
+		}
 	})
 	c.busy = false
 	cl.pump(c)
@@ -687,6 +692,17 @@ func (cl *cluster) handle(c *simConn, frame []byte) {
 			resp[0], resp[1], resp[2], resp[3] = 0x7f, 0xff, 0xff, 0xff
 			cl.noteFault("garbage-oversized-length")
 			cl.k.logf("b%d c%d %s corr=%d -> response with oversized length", br.id, c.id, api, h.corr)
+			if cl.onGarbage != nil {
+				cl.onGarbage(c, h, fault.Do)
+			}
+		case "badlen":
+			// a bare 8-byte header whose length field is invalid (too large, or too small to hold a
+			// correlation id), after which the server carries on answering as if nothing had happened
+			lens := []uint32{uint32(sarama.MaxResponseSize) + 1, 0x7fffffff, 4, 0, 0xffffffff, 3}
+			l := lens[fault.N%len(lens)]
+			resp = []byte{byte(l >> 24), byte(l >> 16), byte(l >> 8), byte(l), resp[4], resp[5], resp[6], resp[7]}
+			cl.noteFault("garbage-bad-length-header-only")
+			cl.k.logf("b%d c%d %s corr=%d -> bare header with length %d", br.id, c.id, api, h.corr, int32(l))
 			if cl.onGarbage != nil {
 				cl.onGarbage(c, h, fault.Do)
 			}
@@ -967,6 +983,12 @@ func (cl *cluster) handleProduce(c *simConn, h reqHeader, frameLen int) {
 			cl.noteFault("incomplete-response")
 			desc = append(desc, key+":MISSING")
 			continue
+		}
+		switch {
+		case blk.err == 0:
+			delete(cl.retryPending, key)
+		case blk.err == 6 || blk.err == 5 || blk.err == 3 || blk.err == 7 || blk.err == 19 || blk.err == 20 || blk.err == 2:
+			cl.retryPending[key] = true
 		}
 		desc = append(desc, fmt.Sprintf("%s:err%d@%d", key, blk.err, blk.base))
 	}
